@@ -42,7 +42,7 @@ CONFIGS = {
     "witness": dict(witness=True),
 }
 
-QUICK_CONFIGS = ["x64"]
+QUICK_CONFIGS = ["x64", "x64-w32", "x64-m51", "x64-tf"]
 THOROUGH_CONFIGS = ["x64", "x64-tf", "x64-w32", "x64-m51", "x64-clmul", "x64-zz32",
                     "x64-nostd", "a64", "rv64", "x86"]
 
